@@ -13,7 +13,7 @@ Fixpoint position (s : bytes) (l : list bytes) : option nat :=
 (* DictionaryUtf8Builder::new(path, build_builder(key), build_builder(value)): keys take the field's
    nullability, values are never nullable *)
 Definition dict_new (key : IntKind) (value : BytesKind) (nullable : bool) : DictB :=
-  {| d_keys := BdPrim key (new_validity nullable) []; d_values := BdUtf8 value None [0%Z] []; d_index := [] |}.
+  {| d_keys := BdPrim (PInt key) (new_validity nullable) []; d_values := BdUtf8 value None [0%Z] []; d_index := [] |}.
 
 (* serialize_str *)
 Definition dict_push_str (s : bytes) (d : DictB) : Outcome DictB :=
